@@ -170,6 +170,14 @@ func expect(c Case) ([]*hx.N, *stats, error) {
 	if c.Proc {
 		m.st.add("page-rewritten-by-a-node-processor")
 	}
+	for k := range c.Data {
+		for _, r := range k {
+			if r > 127 {
+				m.st.add("non-ascii-slot-and-prop-names")
+				break
+			}
+		}
+	}
 	for bit, name := range []string{"slot-prop-v-bind", "include-prop-v-bind", "upper-case-tags", "single-quoted-values", "slot-closed-by-parent"} {
 		if c.Spell&(1<<bit) != 0 {
 			m.st.add("spelling:" + name)
